@@ -1093,6 +1093,27 @@ def rule_r11(ctx) -> RuleResult:
                            "the detector answers 'no loop' from inside the enumeration of candidate periods ({}); the remaining candidates are "
                            "never tried, so a cycle whose period contains the frame just entered more than once is not recognised".format(why),
                            r.lineno))
+    # A candidate may be *skipped* (`continue`) on account of one fixed position of it -- only that rotation of a cycle is lost,
+    # the others are still tried.  A skip that quantifies over all frames of the candidate (any()/all()/membership) removes
+    # every rotation of every cycle that passes through such a frame: those cycles are never recognised (seed C05-10B: cycles
+    # through an argument value, 2^depth expansions before the depth limit stops them).
+    for lp in [n for n in ast.walk(fn) if isinstance(n, ast.For) and id(n) in loops_with_cmp]:
+        for k in [n for b in lp.body for n in ast.walk(b) if isinstance(n, ast.Continue)]:
+            conds = [t for t, truth in X.path_conditions(parents, k) if any(x is lp for x in _enclosing_loops(parents, t, fn))]
+            for t in conds:
+                if not _mentions_content(t, content, param):
+                    continue
+                quant = any((isinstance(x, ast.Call) and isinstance(x.func, ast.Name) and x.func.id in ("any", "all"))
+                            or (isinstance(x, ast.Compare) and any(isinstance(o, (ast.In, ast.NotIn)) for o in x.ops)
+                                and any(isinstance(c_, ast.Name) and c_.id in content for c_ in x.comparators))
+                            for x in ast.walk(t))
+                if quant:
+                    rr.bad(Finding("C05.R11", X.CORE, dotted, "candidate skipped under `{}`".format(unparse(t)[:80]),
+                                   "a candidate period is discarded because of a frame *anywhere* in it: every rotation of a cycle that passes "
+                                   "through such a frame is discarded, the cycle is never reported, and with two re-entries per level the "
+                                   "expansion runs for about 2^100 steps before the depth limit ends it", k.lineno))
+                else:
+                    rr.ok(dotted, "skip under `{}` looks at one fixed position of the candidate".format(unparse(t)[:60]))
     return rr
 
 
